@@ -356,18 +356,34 @@ def _device_connect(ctx, R, roles, T):
         return
     n, c = mc[0]
     st = n.ast
-    ok = n.kind == "stmt" and isinstance(st, ast.Assign) and len(st.targets) == 1 and isinstance(st.targets[0], ast.Tuple) \
-        and [varkey(t) for t in st.targets[0].elts] == [selfn + "._available", selfn + "._maxdata"] and unawait(st.value) is c
+    mt = T.term(f, n, c)
+    df = ctx.df(f)
+    # every store to _available / _maxdata after the attempt holds element 0 / 1 of the manager's result
+    stored = {"_available": [], "_maxdata": []}
+    for x in g.live_nodes():
+        for d in df.node_defs.get(x, []):
+            for attr in stored:
+                if d.var == selfn + "." + attr and d.kind in ("assign", "aug"):
+                    stored[attr].append((x, d))
+    falses = [x for (x, d) in stored["_available"] if d.kind == "assign" and not d.path and isinstance(unawait(d.value), ast.Constant) and unawait(d.value).value is False]
+    results = {}
+    for attr, idx in (("_available", 0), ("_maxdata", 1)):
+        good = []
+        for (x, d) in stored[attr]:
+            if x in falses:
+                continue
+            vt = T._def_term(f, d, d.var, {}, 0, x)
+            if vt == ("proj", mt, idx) and (x is n or g.dominates([n], x)):
+                good.append(x)
+            else:
+                R.fail("HS-device", "%s|%s" % (f.qualname, norm_stmt(x.ast)), "%s is set from %s, not from element %d of the manager's connect() result" % (attr, show(vt), idx), f.loc(x.ast))
+        results[attr] = good
+    ok = len(results["_available"]) == 1 and len(results["_maxdata"]) == 1 and all(g.dominates([x], g.exit, exc=False) for x in results["_available"] + results["_maxdata"])
     R.check(ok, "HS-device", f.qualname + "|adopts", "the manager's (connected, maxdata) is stored in (_available, _maxdata), in that order",
-            "the manager's result is not unpacked into (_available, _maxdata) in that order: `%s`" % norm_stmt(st), f.loc(st))
+            "the manager's result is not stored as (_available, _maxdata) = (result[0], result[1]) exactly once on every path", f.loc(st))
     # "whenever connect() raises the device is left unavailable": the flag is cleared before the attempt, on every path
-    falses = [x for x in g.live_nodes() if x.kind == "stmt" and isinstance(x.ast, ast.Assign) and any(varkey(t) == selfn + "._available" for t in x.ast.targets)
-              and isinstance(x.ast.value, ast.Constant) and x.ast.value.value is False]
     R.check(bool(falses) and g.dominates(falses, n), "HS-device", f.qualname + "|unavailable-first", "the device is marked unavailable before the connection attempt (a raising connect() leaves it unavailable)",
             "availability is not cleared before the connection attempt on every path: after a successful connect(), a later connect() that raises leaves available == True", f.loc(n.ast))
-    for x in g.live_nodes():
-        if x.kind == "stmt" and isinstance(x.ast, ast.Assign) and any(varkey(t) == selfn + "._available" for t in x.ast.targets) and x not in falses and x is not n:
-            R.fail("HS-device", "%s|%s" % (f.qualname, norm_stmt(x.ast)), "availability is set from something other than False / the manager's result", f.loc(x.ast))
     # maxdata writers
     for m in roles.dev_cls.methods.values():
         for k, s, kind_ in attr_writes(m):
@@ -383,5 +399,7 @@ def _device_connect(ctx, R, roles, T):
     R.check(bt is not None and bt[0] in ("attr", "phi", "call", "c") and "_banner" in show(bt), "HS-device", f.qualname + "|banner", "the device's banner is what CNXN announces", "connect() passes %s as banner" % (show(bt) if bt else "?"), f.loc(n.ast))
     for rn in g.live_nodes():
         if rn.kind == "stmt" and isinstance(rn.ast, ast.Return):
-            R.check(rn.ast.value is not None and varkey(unawait(rn.ast.value)) == selfn + "._available" and g.dominates([n], rn), "HS-device", "%s|%s" % (f.qualname, norm_stmt(rn.ast)),
+            rt = T.term(f, rn, rn.ast.value) if rn.ast.value is not None else None
+            okr = rt == ("proj", mt, 0) and g.dominates([n], rn) and all(g.dominates([x], rn) for x in results["_available"])
+            R.check(okr, "HS-device", "%s|%s" % (f.qualname, norm_stmt(rn.ast)),
                     "connect() returns the availability it just stored", "connect() returns `%s`" % norm_stmt(rn.ast), f.loc(rn.ast))
